@@ -402,3 +402,46 @@ Proof.
     rewrite (kwlike_excl t "ANALYZE" "INSERT" eq_refl A), (kwlike_excl t "ANALYZE" "DELETE" eq_refl A), (kwlike_excl t "ANALYZE" "UPDATE" eq_refl A).
     rewrite A. cbn [orb]. rewrite !orb_true_r. reflexivity.
 Qed.
+
+(* C03 on the family: the statement parser never runs out of fuel (its only loop, over a dotted name, is bounded by the input) *)
+Lemma parse_path_nofuel ts : parse_path ts <> Fuel.
+Proof.
+  unfold parse_path. destruct (parse_ident ts) as [[i ts1]| | |] eqn:E; cbn [bind]; try discriminate; [|exfalso; exact (parse_ident_nofuel _ E)].
+  apply parse_ident_ok in E as (KI & _ & ->). destruct (next_cases ts) as [Q|Q].
+  - rewrite Q. destruct ts as [|t r]; [cbn in KI; discriminate|]. cbn [length path_more cur]. cbn [cur] in KI.
+    rewrite (kd _ _ "." KI eq_refl). discriminate.
+  - apply path_more_total. lia.
+Qed.
+
+Lemma expect_words_nofuel : forall ws ts lp, expect_words ws ts lp <> Fuel.
+Proof.
+  induction ws as [|w r IH]; intros ts lp; cbn [expect_words]; [discriminate|].
+  destruct w as [s|k]; cbn [expect_word]; unfold expect_kw, expect.
+  - destruct (kis (cur ts) K_ident); cbn [bind]; [|discriminate]. destruct (is_kwlike (cur ts) s); cbn [bind]; [apply IH|discriminate].
+  - destruct (kis (cur ts) k); cbn [bind]; [apply IH|discriminate].
+Qed.
+
+Lemma parse_row_nofuel pos r ts : parse_row pos r ts <> Fuel.
+Proof.
+  unfold parse_row. pose proof (expect_words_nofuel (r_words r) ts 0%Z) as W.
+  destruct (expect_words (r_words r) ts 0) as [[lp a]| | |]; cbn [bind]; try discriminate; [|congruence].
+  assert (IE : (if r_ifexists r then if_exists a else Ok (false, a)) <> Fuel).
+  { destruct (r_ifexists r); [|discriminate]. unfold if_exists, expect. destruct (kis (cur a) "IF"); [|discriminate].
+    destruct (kis (cur (next a)) "EXISTS"); cbn [bind]; discriminate. }
+  destruct (if r_ifexists r then if_exists a else Ok (false, a)) as [[ie b]| | |]; cbn [bind]; try discriminate; [|congruence].
+  destruct (r_name r); [discriminate| |].
+  - pose proof (parse_ident_nofuel b). destruct (parse_ident b) as [[i c]| | |]; cbn [bind]; congruence.
+  - pose proof (parse_path_nofuel b). destruct (parse_path b) as [[ids c]| | |]; cbn [bind]; congruence.
+Qed.
+
+Theorem ddl_body_nofuel ts : ddl_body ts <> Some Fuel.
+Proof.
+  unfold ddl_body. destruct (kis (cur ts) "CREATE").
+  { destruct (find_row create_rows (cur (next ts))) as [r|]; [|destruct (other_create (cur (next ts))); discriminate].
+    intros H. inversion H as [H1]. exact (parse_row_nofuel _ _ _ H1). }
+  destruct (is_kwlike (cur ts) "DROP").
+  { destruct (find_row drop_rows (cur (next ts))) as [r|]; [|discriminate]. intros H. inversion H as [H1]. exact (parse_row_nofuel _ _ _ H1). }
+  destruct (is_kwlike (cur ts) "ANALYZE").
+  { unfold expect_kw, expect. destruct (kis (cur ts) K_ident); cbn [bind]; [|discriminate]. destruct (is_kwlike (cur ts) "ANALYZE"); cbn [bind]; discriminate. }
+  destruct (is_kwlike (cur ts) "ALTER" || is_kwlike (cur ts) "RENAME" || is_kwlike (cur ts) "GRANT" || is_kwlike (cur ts) "REVOKE"); discriminate.
+Qed.
